@@ -235,6 +235,14 @@ def family_special(rnd, tier):
         out.append(SC("spec-sole-%s-intodir" % name, ent + [E("d", "dir")], [name], "d", r=False, cls="special"))
         out.append(SC("spec-sole-%s-replace" % name, ent + [E("d", "file", "G1")], [name], "d", r=False, cls="special"))
         out.append(SC("spec-sole-%s-noclobber" % name, ent + [E("d", "file", "G1")], [name], "d", r=False, n=True, cls="special"))
+    # permission bits and file-creation mask
+    for mode in (0o600, 0o666, 0o640, 0o777, 0o444):
+        for um in (0, 0o022, 0o077):
+            fs = [E("s", "dir"), E("s/p", "fifo", m=mode), E("s/c", "chr", "1:3", m=mode), E("s/so", "sock", m=mode), E("s/f", "file", "F1")]
+            sc = SC("spec-mode-%o-%o" % (mode, um), fs, ["s"], "d", cls="special"); sc["umask"] = um
+            out.append(sc)
+            sc = SC("spec-mode-sole-%o-%o" % (mode, um), [E("p", "fifo", m=mode)], ["p"], "d", r=False, cls="special"); sc["umask"] = um
+            out.append(sc)
     out.append(SC("spec-blk-sole", [E("bd", "blk", "7:0")], ["bd"], "d", r=False, cls="special"))
     out.append(SC("spec-blk-tree", tree("s", {"a": "F1", "bd": ("blk", 7, 1), "z": "F2"}), ["s"], "d", cls="special"))
     return out
@@ -274,12 +282,15 @@ def family_random(rnd, count):
     out = []
     names = ["a", "b", "d", "l"]
     for i in range(count):
-        def rtree(depth):
+        def rtree(depth, links=True):
+            # destination areas get no links: a regular file copied onto a destination link is written through it
+            # (cp-compatible) and the result then depends on the order of operations - outside the stated domain (DESIGN 7)
             sh = {}
             for nme in rnd.sample(names, rnd.randint(0, 3)):
                 x = rnd.random()
                 if x < 0.45: sh[nme] = "F%d" % rnd.randint(1, 5)
-                elif x < 0.65 and depth < 2: sh[nme] = rtree(depth + 1)
+                elif x < 0.65 and depth < 2: sh[nme] = rtree(depth + 1, links)
+                elif x < 0.85 and not links: sh[nme] = "G%d" % rnd.randint(1, 5)
                 elif x < 0.85: sh[nme] = ("link", rnd.choice(["a", "b", "../a", "d", "nowhere", "/s/a", "/s", ".."]))
                 elif x < 0.93: sh[nme] = ("fifo",)
                 else: sh[nme] = {}
@@ -288,8 +299,8 @@ def family_random(rnd, count):
         fs = [E("s", "file", "F1")] if s_is_file else tree("s", rtree(0))
         dkind = rnd.choice(["absent", "dir", "pop", "file", "earlier"])
         if dkind == "dir": fs += [E("d", "dir")]
-        elif dkind == "pop": fs += tree("d", {"keep": "F7", "s": rtree(1)})
-        elif dkind == "earlier": fs += tree("d", {"s": rtree(1), "a": "G1"})
+        elif dkind == "pop": fs += tree("d", {"keep": "F7", "s": rtree(1, False)})
+        elif dkind == "earlier": fs += tree("d", {"s": rtree(1, False), "a": "G1"})
         elif dkind == "file": fs += [E("d", "file", "G9")]
         fs.append(E("by", "file", "F6"))
         # drop duplicate paths (rtree may collide with fixed names) keeping the first
@@ -307,7 +318,7 @@ def model_record(sc):
     keep = ("id", "r", "T", "n", "L")
     m = {k: sc[k] for k in keep}
     m["bad"] = sc.get("cls", "") in ("reject-opt", "reject-glob")
-    m["fs0"] = [{"p": e["p"], "k": e["k"], "c": e["c"], "lt": e["lt"], "h": e["h"]} for e in sc["fs0"]]
+    m["fs0"] = [{"p": e["p"], "k": e["k"], "c": e["c"], "lt": e["lt"], "h": e["h"], "g": 0} for e in sc["fs0"]]
     m["sources"] = [{"norm": a["norm"], "trail": a["trail"]} for a in sc["sources"]]
     m["dest"] = {"norm": sc["dest"]["norm"], "trail": sc["dest"]["trail"]}
     return m
@@ -335,7 +346,8 @@ def md_of(e):
     return "%o|%s|%d|%d|%s|%s" % (e["m"], e["t"], e["u"], e["g"], e["x"], e["i"])
 
 def observe(entries, with_md=True):
-    return [{"p": e["p"], "k": e["k"], "c": (e["r"] if e["k"] in ("chr", "blk") else e["c"]), "md": md_of(e) if with_md else ""} for e in entries]
+    return [{"p": e["p"], "k": e["k"], "c": (e["r"] if e["k"] in ("chr", "blk") else e["c"]), "md": md_of(e) if with_md else "",
+             "m": e["m"]} for e in entries]
 
 def mat_entries(sc):
     out = []
@@ -385,9 +397,10 @@ def run_one(binary, sc, driver, run_id, names=None, strace=None, workers=None, e
     st = None
     if strace is not None:
         st = dict(strace); st["out"] = root + ".strace"
-    r = runner.run_xcp(binary, cli(sc, driver, names, root, workers), cwd=root, env=env, strace=st, timeout=timeout)
+    umask = sc.get("umask", 0o022)
+    r = runner.run_xcp(binary, cli(sc, driver, names, root, workers), cwd=root, env=env, strace=st, timeout=timeout, umask=umask)
     after = fsmat.snapshot(root, names, contents)
-    obs = {"sc": model_record(sc), "driver": driver, "run": run_id,
+    obs = {"sc": model_record(sc), "driver": driver, "run": run_id, "umask": umask,
            "exit": (-9 if r.exit is None else r.exit) if not r.timed_out else -7,
            "before": observe(before), "after": observe(after)}
     obs["_run"] = {"stderr": r.stderr[-600:], "wall": r.wall, "timed_out": r.timed_out, "argv": [a.decode(errors="replace") for a in cli(sc, driver, names, root, workers)],
@@ -414,10 +427,67 @@ def judge(observations, chunk=400):
         stats["generated"] += r.generated; stats["distinct"] += r.distinct; stats["wall"] += r.wall
     return verdicts, stats
 
-def model_check(scenarios, workers=8, timeout=1200):
+def model_check(scenarios, workers=8, timeout=1200, cfg="MC_NS.cfg"):
     """Exhaustive Layer-A check of XcpNS over the given scenarios (all walker orders x all operation orders)."""
     path = os.path.join(scratch(), "scen-%d.ndjson" % os.getpid())
     tlc.write_ndjson(path, [model_record(s) for s in scenarios])
-    r = tlc.run("MC_NS", "MC_NS.cfg", workers=workers, env={"SCEN": path}, timeout=timeout, want_tags={"PREDICT"})
+    r = tlc.run("MC_NS", cfg, workers=workers, env={"SCEN": path}, timeout=timeout, want_tags={"PREDICT"})
     os.unlink(path)
     return r
+
+# ------------------------------------------------------------------ kill / fault campaigns (strace as driver)
+MUTATING = "openat,ftruncate,copy_file_range,fchmod,utimensat,fchown,fsetxattr,fsync,rename,mkdir,symlink,mknodat,unlink,write,pwrite64,close"
+
+def profile(binary, sc, driver, workers=2):
+    """Fault-free traced run -> per-thread count of each traced syscall: {sys: max count in one thread}, total max per thread."""
+    from . import s2e
+    o = run_one(binary, sc, driver, "prof-%s-%s" % (sc["id"], driver), strace={"trace": MUTATING}, workers=workers, keep=True)
+    per = {}
+    tot = {}
+    for r in s2e.parse(o["_run"]["trace"]):
+        if r["kind"] != "sys":
+            continue
+        per.setdefault(r["sys"], {}).setdefault(r["tid"], 0)
+        per[r["sys"]][r["tid"]] += 1
+        tot[r["tid"]] = tot.get(r["tid"], 0) + 1
+    shutil.rmtree(o["_run"]["root"], ignore_errors=True)
+    try:
+        os.unlink(o["_run"]["trace"])
+    except OSError:
+        pass
+    return {s: max(c.values()) for s, c in per.items()}, (max(tot.values()) if tot else 0), o
+
+def kill_runs(binary, sc, driver, npoints, workers=2, tag="kill"):
+    """One run per kill point N: SIGKILL delivered at the N-th traced syscall of some thread."""
+    jobs = []
+    for n in npoints:
+        jobs.append(n)
+    def one(n):
+        o = run_one(binary, sc, driver, "%s-%s-%s-%d" % (tag, sc["id"], driver, n), workers=workers,
+                    strace={"trace": MUTATING, "inject": ["%s:signal=KILL:when=%d" % (MUTATING, n)]})
+        o["_run"]["point"] = n
+        try:
+            os.unlink(o["_run"]["trace"])
+        except OSError:
+            pass
+        return o
+    return runner.pmap(one, jobs)
+
+def fault_runs(binary, sc, driver, points, workers=2, tag="fault", keep_trace=False, extra_args=None):
+    """points: list of (syscall, errno, when).  One run per point with that call failing."""
+    def one(pt):
+        sysc, err, when = pt
+        o = run_one(binary, sc, driver, "%s-%s-%s-%s-%s-%d" % (tag, sc["id"], driver, sysc, err, when), workers=workers,
+                    strace={"trace": MUTATING + ",ioctl,getdents64,newfstatat,statx,readlink,lseek,read,pread64", "inject": ["%s:error=%s:when=%d" % (sysc, err, when)]})
+        o["_run"]["point"] = list(pt)
+        inj = False
+        try:
+            with open(o["_run"]["trace"], errors="replace") as f:
+                inj = "(INJECTED)" in f.read()
+            if not keep_trace:
+                os.unlink(o["_run"]["trace"])
+        except OSError:
+            pass
+        o["_run"]["injected"] = inj
+        return o
+    return runner.pmap(one, points)
